@@ -80,12 +80,34 @@ def run(ctx, chk):
                 return not truth
         return None
 
-    cond_rule("jmps_loops", lambda c: "LabelType::DATA" in c[0] and c[1], "jump-to-data-label", "jump to a data label")
+    def label_type(c):
+        """the label type a path condition establishes ('CODE' / 'DATA' / None): a match arm or `if let` on the
+        variant, the catch-all after the other variant's arm, or an ==/!= comparison with the variant"""
+        desc, truth = c[0], bool(c[1])
+        both = {"CODE", "DATA"}
+        m = re.search(r"matches _ \[not ([^\]]*)\]", desc)
+        if m and truth:
+            named = set(re.findall(r"LabelType::(CODE|DATA)", m.group(1)))
+            rest = both - named
+            return next(iter(rest)) if len(rest) == 1 and named else None
+        m = re.search(r"matches (?:[A-Za-z_:]*::)?LabelType::(CODE|DATA)", desc)
+        if m:
+            return m.group(1) if truth else next(iter(both - {m.group(1)}))
+        m = re.search(r"(==|!=)\s*(?:[A-Za-z_:]*::)?LabelType::(CODE|DATA)|LabelType::(CODE|DATA)\s*(==|!=)", desc)
+        if m:
+            v = m.group(2) or m.group(3)
+            op = m.group(1) or m.group(4)
+            neg = desc.lstrip().startswith("!")
+            holds = (truth != neg) == (op == "==")
+            return v if holds else next(iter(both - {v}))
+        return None
+
+    cond_rule("jmps_loops", lambda c: label_type(c) == "DATA", "jump-to-data-label", "jump to a data label")
     cond_rule("label", lambda c: presence(c, "label_map") is True, "duplicate-label", "label already defined")
     cond_rule("proc_def", lambda c: presence(c, "fn_map") is True, "duplicate-procedure", "procedure already declared")
     for nt in ("byte_label", "word_label", "offset"):
         cond_rule(nt, lambda c: presence(c, "label_map") is False, "unknown-label", "label not defined")
-        cond_rule(nt, lambda c: "LabelType::CODE" in c[0] and c[1], "code-label-as-data", "code label used as data operand")
+        cond_rule(nt, lambda c: label_type(c) == "CODE", "code-label-as-data", "code label used as data operand")
     cond_rule("call", lambda c: presence(c, "fn_map") is False, "call-non-procedure", "call of something that is not a procedure")
     # int set
     ints = int_constants(E, "int")
